@@ -45,6 +45,23 @@ static void *buildStress(flatcc_builder_t *Bd, unsigned v, size_t *size)
     return flatcc_builder_finalize_aligned_buffer(Bd, size);
 }
 
+/* long texts: one plain string that puts the end of the text at every offset around a multiple of the FILE printer's flush unit (16384):
+ * v % 200 walks the end of the text across the boundary, (v / 200) % 3 chooses 1, 2 or 3 units */
+static void *buildLong(flatcc_builder_t *Bd, unsigned v, size_t *size)
+{
+    size_t L = 16384 * (1 + (v / 200) % 3) - 120 + v % 200; char *s = malloc(L + 1);
+    memset(s, 'x', L); s[L] = 0;
+    flatcc_builder_reset(Bd);
+    EvoB_Root_start_as_root(Bd);
+    EvoB_Root_id_add(Bd, (int)v);
+    /* the long string first, then a number of maximal width: the longest run of bytes written without a flush test ends the text */
+    EvoB_Root_names_start(Bd); EvoB_Root_names_push_create(Bd, s, L); EvoB_Root_names_end(Bd);
+    EvoB_Root_extra_add(Bd, INT64_MIN);
+    EvoB_Root_end_as_root(Bd);
+    free(s);
+    return flatcc_builder_finalize_aligned_buffer(Bd, size);
+}
+
 int main(int argc, char **argv)
 {
     unsigned v0 = argc > 1 ? (unsigned)atoi(argv[1]) : 0, cnt = argc > 2 ? (unsigned)atoi(argv[2]) : 10, step = argc > 3 ? (unsigned)atoi(argv[3]) : 1;
@@ -54,7 +71,7 @@ int main(int argc, char **argv)
     flatcc_builder_init(&Bd);
     for (k = 0; k < cnt; ++k) {
         unsigned v = (v0 + k * step) % 65536; size_t size, reflen = 0, flen, s; void *buf; char *ref; flatcc_json_printer_t pr; int rlen, err;
-        buf = stress ? buildStress(&Bd, v, &size) : buildB(&Bd, v, &size);
+        buf = stress == 2 ? buildLong(&Bd, v, &size) : stress ? buildStress(&Bd, v, &size) : buildB(&Bd, v, &size);
         cur_v = v; cur_flags = flags;
         cur_mode = "dynamic"; cur_size = 0; alarm(20);
         flatcc_json_printer_init_dynamic_buffer(&pr, 64 + (v % 200));
@@ -65,7 +82,10 @@ int main(int argc, char **argv)
         if (err || rlen < 0 || (size_t)rlen != reflen || !ref || strlen(ref) != reflen) { printf("BAD v=%u flags=%u dynamic: err=%d ret=%d len=%zu\n", v, flags, err, rlen, reflen); ++bad; free(ref); flatcc_builder_aligned_free(buf); continue; }
         cur_mode = "fixed";
         for (s = FLATCC_JSON_PRINT_RESERVE; s <= reflen + FLATCC_JSON_PRINT_RESERVE + 8; ++s) {
-            char *fb = malloc(s + 8); int r;
+            char *fb; int r;
+            /* long texts: every size around the text length, a sample of the sizes far below it */
+            if (reflen > 4096 && s + 300 < reflen && s % 1013) continue;
+            fb = malloc(s + 8);
             memset(fb, 0x7e, s); memcpy(fb + s, "CANARY!!", 8);
             cur_size = (unsigned)s; alarm(20);
             flatcc_json_printer_init_buffer(&pr, fb, s);
@@ -87,14 +107,17 @@ int main(int argc, char **argv)
             flatcc_json_printer_clear(&pr);
             free(fb);
         }
-        /* file mode */
-        { FILE *fp = tmpfile(); char *fbuf; long fl; cur_mode = "file"; alarm(20);
+        /* file mode: the root print call flushes what it printed; with and without a further explicit flush the file must hold the whole text */
+        { int extra_flush;
+          for (extra_flush = 0; extra_flush < 2; ++extra_flush) {
+          FILE *fp = tmpfile(); char *fbuf; long fl; cur_mode = "file"; alarm(20);
           flatcc_json_printer_init(&pr, fp); set_flags(&pr, flags);
-          rlen = EvoB_Root_print_json_as_root(&pr, buf, size, 0); flatcc_json_printer_flush(&pr);
+          rlen = EvoB_Root_print_json_as_root(&pr, buf, size, 0); if (extra_flush) flatcc_json_printer_flush(&pr);
           err = flatcc_json_printer_get_error(&pr); flatcc_json_printer_clear(&pr);
+          fflush(fp); fseek(fp, 0, SEEK_END);
           fl = ftell(fp); rewind(fp); fbuf = malloc((size_t)fl + 1); if (fread(fbuf, 1, (size_t)fl, fp) != (size_t)fl) fl = -1; fclose(fp);
-          if (err || (size_t)fl != reflen || (size_t)rlen != reflen || memcmp(fbuf, ref, reflen)) { printf("BAD v=%u flags=%u file: differs from dynamic (len %ld vs %zu err %d)\n", v, flags, fl, reflen, err); ++bad; }
-          free(fbuf); }
+          if (err || (size_t)fl != reflen || (size_t)rlen != reflen || memcmp(fbuf, ref, reflen)) { printf("BAD v=%u flags=%u file (explicit flush: %d): differs from dynamic (len %ld vs %zu err %d)\n", v, flags, extra_flush, fl, reflen, err); ++bad; }
+          free(fbuf); } }
         alarm(0);
         free(ref); flatcc_builder_aligned_free(buf);
     }
